@@ -6,6 +6,10 @@
   code_rows()       arm table of an exit-code value: `match r {Ok(c) => c, Err(e) => {..; 1}}`,
                     `r.unwrap_or_else(|e| {..; 1})`, `r.map_or_else(|e| {..; 1}, |c| c)` and `r.unwrap_or(1)` give the same rows
   SynthCond         the decision a Result combinator takes on behalf of the code (closure runs exactly on Err)
+  LenFacts          interval facts on the length of a slice parameter implied by decisions / by a (const-generic) helper
+                    returning Some / Ok (R3 arity: `[_, a, b]`, `len() == 3`, split_first + try_into::<&[_; N]> are one fact)
+  nested_must()     FORALL effects of loop nests, outer loops over literal tables unrolled (R4 SBOM table)
+  written_data()    bytes written to a created file, also via `File::create(p).and_then(|f| f.write_all(d))`
 """
 from .lib.discard import diverges
 from .lib.paths import strip
@@ -172,3 +176,503 @@ def err_closure_payload(E, e):
         args = tuple(_replace(a, old, new) for a in args)
         implied = tuple(_replace(x, old, new) for x in implied)
     return args, implied
+
+
+# ---- slice-length facts (R3 arity) ---------------------------------------------------------------------
+# "parse succeeds only for exactly n arguments" is an implication `returns Ok => len(args) == n`.  It is decided on an
+# interval domain over len(<slice parameter>): every decision that dominates a success return contributes an interval
+# (a comparison of the length, a slice pattern, `split_first()` / `first()` / `get(k)` being Some, a slice -> array
+# conversion being Ok, a private helper returning Some / Ok — recursively, in the caller's terms and with the helper's
+# const generics bound from the call's instantiated type), the intervals of one return are intersected and the returns
+# are joined.  `[_, a, b] = args`, `args.len() == 3`, `match args.len() {3 => ..}`, `split_first` + `try_into::<&[_; 2]>`
+# in a const-generic helper are the same fact [3, 3] to the rule; `[_, a, b, ..]` is [3, inf) and an iterator walk
+# is [0, inf).
+import re
+
+INF = float('inf')
+FULL = (0, INF)
+EMPTY = (INF, -INF)
+SUCCESS = frozenset({'Some', 'Ok', 'Continue'})
+FAILURE = frozenset({'None', 'Err', 'Break'})
+
+
+def _meet(a, b):
+    r = (max(a[0], b[0]), min(a[1], b[1]))
+    return EMPTY if r[0] > r[1] else r
+
+
+def _join(a, b):
+    if a == EMPTY:
+        return b
+    if b == EMPTY:
+        return a
+    return (min(a[0], b[0]), max(a[1], b[1]))
+
+
+def _shift(r, k):
+    """interval of x given the interval r of x + k (lengths are never negative)"""
+    if r == EMPTY:
+        return r
+    return _meet((r[0] - k, r[1] - k), FULL)
+
+
+_TOK = re.compile(r"[A-Za-z_0-9:']+|\S")
+_GENERIC = re.compile(r'[A-Z][A-Za-z0-9_]*$')
+
+
+def _group(t, j):
+    """end index of the type starting at token j"""
+    while j < len(t) and (t[j] in ('&', '*', 'mut', 'const') or t[j].startswith("'")):
+        j += 1
+    if j >= len(t):
+        return None
+    close = {'[': ']', '(': ')'}
+    if t[j] in close:
+        depth, k = 0, j
+        while k < len(t):
+            if t[k] in close:
+                depth += 1
+            elif t[k] in close.values():
+                depth -= 1
+                if depth == 0:
+                    return k + 1
+            k += 1
+        return None
+    if t[j] in ('dyn', 'impl', 'fn'):
+        return None
+    k = j + 1
+    if k < len(t) and t[k] == '<':
+        depth = 0
+        while k < len(t):
+            if t[k] == '<':
+                depth += 1
+            elif t[k] == '>':
+                depth -= 1
+                if depth == 0:
+                    return k + 1
+            k += 1
+        return None
+    return k
+
+
+def unify_types(pat, tgt):
+    """{generic parameter: instantiation} from a declared type (`Option<[PathBuf; N]>`) and the type the same position
+    has at a use (`Option<[PathBuf; 2]>`); partial on anything unexpected"""
+    env = {}
+    if not pat or not tgt:
+        return env
+    p, t = _TOK.findall(pat), _TOK.findall(tgt)
+    i = j = 0
+    while i < len(p) and j < len(t):
+        if p[i] == t[j]:
+            i, j = i + 1, j + 1
+            continue
+        if _GENERIC.match(p[i]):
+            k = _group(t, j)
+            if k is None:
+                break
+            val = ' '.join(t[j:k])
+            if env.setdefault(p[i], val) != val:
+                break
+            i, j = i + 1, k
+            continue
+        break
+    return env
+
+
+def _type_args(ty):
+    """top-level generic arguments of `Head<A, B>`"""
+    if not ty or '<' not in ty or not ty.endswith('>'):
+        return []
+    body = ty[ty.index('<') + 1:-1]
+    out, depth, cur = [], 0, ''
+    for ch in body:
+        if ch in '<[(':
+            depth += 1
+        elif ch in '>])':
+            depth -= 1
+        if ch == ',' and depth == 0:
+            out.append(cur.strip())
+            cur = ''
+        else:
+            cur += ch
+    if cur.strip():
+        out.append(cur.strip())
+    return out
+
+
+_ARRAY = re.compile(r'^(?:&\s*(?:mut\s+)?|std::boxed::Box<)?\[.*;\s*([A-Za-z_0-9]+)\]>?$')
+
+
+def _array_len(ty, env):
+    m = _ARRAY.match(ty or '')
+    if not m:
+        return None
+    n = m.group(1)
+    for _ in range(4):
+        if n.isdigit():
+            return int(n)
+        n = (env.get(n) or '').replace('_usize', '').strip()
+    return None
+
+
+# Option / Result adapters whose result can only be a success when the receiver was one
+NEEDS_RECEIVER = ('map', 'map_err', 'and_then', 'filter', 'ok', 'ok_or', 'ok_or_else', 'inspect', 'inspect_err', 'copied', 'cloned',
+                  'as_ref', 'as_mut', 'as_deref', 'as_deref_mut', 'zip', 'take_if')
+AT_LEAST_ONE = ('split_first', 'split_last', 'first', 'last', 'first_mut', 'last_mut', 'split_first_mut', 'split_last_mut')
+CONVERSIONS = ('std::convert::TryInto::try_into', 'std::convert::TryFrom::try_from')
+LEN_CALLS = ('core::slice::<impl [T]>::len', 'std::vec::Vec::<T, A>::len', 'std::vec::Vec::<T>::len')
+EMPTY_CALLS = ('core::slice::<impl [T]>::is_empty', 'std::vec::Vec::<T, A>::is_empty', 'std::vec::Vec::<T>::is_empty')
+
+
+def _meth(v, heads, names):
+    return v[0] == 'call' and isinstance(v[1], str) and v[1].startswith(heads) and v[1].rsplit('::', 1)[-1] in names
+
+
+def _slice_meth(v, names):
+    return _meth(v, ('core::slice::<impl [T]>::', 'std::vec::Vec::'), names)
+
+
+def _adapter(v):
+    return v[0] == 'call' and v[2] and (v[1] == 'std::ops::Try::branch' or
+                                        _meth(v, ('std::option::Option::', 'std::result::Result::'), NEEDS_RECEIVER))
+
+
+class LenFacts:
+    """intervals of the length of a slice value `root` (a parameter) that hold where / when something succeeds"""
+
+    def __init__(self, prog, sl):
+        self.prog, self.sl = prog, sl
+
+    def _call_at(self, v):
+        site = v[3] if len(v) > 3 else None
+        f = self.prog.fns.get(site[0]) if site else None
+        if f is None:
+            return None
+        for c in f.calls:
+            if c.bb == site[1]:
+                return c
+        return None
+
+    def term(self, v):
+        """(root value, k) with len(v) == len(root) + k: the rest of split_first / split_last, `&v[k..]`, and a
+        slice <-> array conversion keep the length relation"""
+        off = 0
+        for _ in range(8):
+            if v[0] == 'updated':
+                v = v[1]
+                continue
+            if v[0] == 'param':
+                return v, off
+            if v[0] == 'field' and v[2] == '1' and v[1][0] == 'unwrap':
+                c = v[1][1]
+                while _adapter(c):
+                    c = c[2][0]
+                if _slice_meth(c, ('split_first', 'split_last', 'split_first_mut', 'split_last_mut')):
+                    v, off = c[2][0], off - 1
+                    continue
+                return None
+            if v[0] == 'unwrap':
+                c = v[1]
+                while _adapter(c):
+                    c = c[2][0]
+                if c[0] == 'call' and c[1] in CONVERSIONS and c[2]:
+                    v = c[2][0]
+                    continue
+                return None
+            if v[0] == 'call' and isinstance(v[1], str) and v[1].endswith('::index') and len(v[2]) == 2:
+                r = v[2][1]
+                if r[0] == 'agg' and isinstance(r[1], str) and r[1].endswith('RangeFrom') and len(r[3]) == 1 and r[3][0][1][0] == 'const' \
+                        and isinstance(r[3][0][1][1], int):
+                    v, off = v[2][0], off - r[3][0][1][1]
+                    continue
+                return None
+            if v[0] == 'call' and isinstance(v[1], str) and v[1].rsplit('::', 1)[-1] in ('as_slice', 'as_ref', 'borrow', 'deref') and len(v[2]) == 1:
+                v = v[2][0]
+                continue
+            return None
+        return None
+
+    def _about(self, x, root, r):
+        """r holds for len(x): what holds for len(root)"""
+        t = self.term(x)
+        if t is None or t[0] != root:
+            return FULL
+        return _shift(r, t[1])
+
+    def _len_of(self, v):
+        v = strip(v)
+        if v[0] == 'cast':
+            v = strip(v[1])
+        if v[0] == 'un' and v[1] == 'PtrMetadata':
+            return v[2]
+        if v[0] == 'call' and v[1] in LEN_CALLS and v[2]:
+            return v[2][0]
+        return None
+
+    def compare(self, v, oc, root):
+        """interval of len(root) when boolean v has outcome oc"""
+        v = strip(v)
+        if v[0] == 'call' and v[1] in EMPTY_CALLS and v[2]:
+            return self._about(v[2][0], root, (0, 0) if oc else (1, INF))
+        if v[0] != 'bin':
+            return FULL
+        op, a, b = v[1], v[2], v[3]
+        flip = {'Lt': 'Gt', 'Gt': 'Lt', 'Le': 'Ge', 'Ge': 'Le', 'Eq': 'Eq', 'Ne': 'Ne'}
+        neg = {'Lt': 'Ge', 'Ge': 'Lt', 'Gt': 'Le', 'Le': 'Gt', 'Eq': 'Ne', 'Ne': 'Eq'}
+        if op not in flip:
+            return FULL
+        x, k = self._len_of(a), strip(b)
+        if x is None:
+            x, k, op = self._len_of(b), strip(a), flip[op]
+        if x is None or k[0] != 'const' or not isinstance(k[1], int) or isinstance(k[1], bool):
+            return FULL
+        if not oc:
+            op = neg[op]
+        n = k[1]
+        r = {'Eq': (n, n), 'Lt': (0, n - 1), 'Le': (0, n), 'Gt': (n + 1, INF), 'Ge': (n, INF), 'Ne': FULL}[op]
+        if r[0] > r[1]:
+            r = EMPTY
+        return self._about(x, root, r)
+
+    def cond(self, cd, root, env, depth):
+        if cd.kind == 'bool':
+            r = FULL
+            for v, oc in cd.views():
+                r = _meet(r, self.compare(v, oc, root))
+            return r
+        if cd.kind == 'int':
+            x = self._len_of(cd.value)
+            if x is not None and isinstance(cd.outcome, int) and not isinstance(cd.outcome, bool):
+                return self._about(x, root, (cd.outcome, cd.outcome))
+            return FULL
+        if cd.kind == 'variant' and cd.subject is not None and cd.outcome and cd.outcome <= SUCCESS:
+            return self.success(cd.subject, root, env, depth)
+        return FULL
+
+    def at(self, fn, bb, root, env=None, depth=0):
+        """interval of len(root) that holds whenever block bb of fn runs"""
+        from .lib.guards import conditions
+        r = FULL
+        for cd in conditions(fn, bb, self.sl):
+            r = _meet(r, self.cond(cd, root, env or {}, depth))
+        return r
+
+    def success(self, v, root, env=None, depth=0):
+        """interval of len(root) implied by `v is Some / Ok`"""
+        env = env or {}
+        while v[0] == 'updated':
+            v = v[1]
+        if v[0] == 'phi':
+            r = EMPTY
+            for a in v[1]:
+                r = _join(r, self.success(a, root, env, depth))
+            return r
+        if v[0] == 'agg' and v[1] in ('std::result::Result', 'std::option::Option', 'std::ops::ControlFlow'):
+            return EMPTY if v[2] in FAILURE else FULL
+        if v[0] != 'call' or not isinstance(v[1], str) or depth > 6:
+            return FULL
+        if v[1].endswith('FromResidual::from_residual'):
+            return EMPTY
+        if _adapter(v):
+            return self.success(v[2][0], root, env, depth)
+        if _slice_meth(v, AT_LEAST_ONE) and v[2]:
+            return self._about(v[2][0], root, (1, INF))
+        if _slice_meth(v, ('get', 'get_mut')) and len(v[2]) == 2 and v[2][1][0] == 'const' and isinstance(v[2][1][1], int):
+            return self._about(v[2][0], root, (v[2][1][1] + 1, INF))
+        if v[1] in CONVERSIONS and v[2]:
+            c = self._call_at(v)
+            ta = _type_args(c.dty) if c is not None and (c.dty or '').startswith('std::result::Result<') else []
+            n = _array_len(ta[0], env) if ta else None
+            return self._about(v[2][0], root, (n, n)) if n is not None else FULL
+        g = self.prog.fns.get(v[1])
+        if g is not None and g.kind != 'Closure':
+            c = self._call_at(v)
+            genv = dict(env)
+            if c is not None:
+                for k, val in unify_types(g.ret, c.dty).items():
+                    genv[k] = env.get(val, val)
+            r = FULL
+            for j, a in enumerate(v[2][:g.argc]):
+                t = self.term(a)
+                if t is None or t[0] != root:
+                    continue
+                rj = self.fn_success(g, j, genv, depth + 1)
+                r = _meet(r, _shift(rj, t[1]))
+            return r
+        return FULL
+
+    def fn_success(self, g, j, env=None, depth=0):
+        """interval of len(parameter j of g) over all the ways g returns Some / Ok"""
+        if g.partial_defs(0) or depth > 6:
+            return FULL
+        root = ('param', g.path, j, g.local_name(j + 1))
+        out = EMPTY
+        for d in g.whole_defs(0):
+            here = self.at(g, d[1], root, env, depth)
+            if d[0] == 'stmt' and d[3]['r'] == 'agg' and d[3].get('kind') == 'adt' and d[3].get('adt') in ('std::result::Result', 'std::option::Option'):
+                if d[3].get('variant') in FAILURE:
+                    continue
+            else:
+                try:
+                    val = self.sl._def_value(g, d, set(), 0)
+                except Exception:
+                    val = ('unknown',)
+                here = _meet(here, self.success(val, root, env, depth))
+            out = _join(out, here)
+        return out
+
+
+# ---- FORALL effects of loop nests (R4 build SBOM table) ------------------------------------------------
+# lib/effects.find_loops takes every predecessor of an `Iterator::next` block that the block can reach as a latch, which
+# for a loop inside another loop is also the edge *entering* the inner loop: the inner loop is then not recognised and
+# the effects of its body are not MUST effects of the function.  The natural loops (back edge = predecessor dominated
+# by the header) are computed here, and the calls of an inner loop that run for every element of it on every iteration
+# of the enclosing loop(s) are expanded with the enclosing loops unrolled when they range over a literal table:
+# `for (xs, name, ..) in [(&a, "build", ..), (&b, "launch", ..)] { for x in xs { write(path(x, name), x.data)? } }` has the
+# MUST effects of `for x in a { write(path(x, "build"), ..)? } for x in b { write(path(x, "launch"), ..)? }`.
+WRITE_DATA = {'std::io::Write::write_all': ('WRITE_DATA', 0)}
+CREATE = ('std::fs::File::create', 'std::fs::File::create_new')
+
+
+class NLoop:
+    def __init__(self, fn, header, body, latches, collection, exhaust):
+        self.fn, self.header, self.body, self.latches, self.collection, self.exhaust = fn, header, body, latches, collection, exhaust
+
+
+def natural_loops(E, fn):
+    from .lib.mir import op_place
+    preds = fn.preds()
+    loops = []
+    for c in fn.calls:
+        if c.indirect or c.decl != 'std::iter::Iterator::next':
+            continue
+        h = c.bb
+        latches = [p for p in preds[h] if fn.dominates(h, p)]
+        if not latches:
+            continue
+        body, work = {h}, list(latches)
+        while work:
+            b = work.pop()
+            if b in body:
+                continue
+            body.add(b)
+            work.extend(preds[b])
+        rp = op_place(c.args[0]) if c.args else None
+        coll = E.slicer.place(fn, rp) if rp else None
+        exhaust = None
+        tb = c.target
+        if tb is not None and fn.blocks[tb]['t']['t'] == 'switch':
+            t = fn.blocks[tb]['t']
+            some_t = [b for v, b in t['targets'] if v == 1]
+            outs = [b for v, b in t['targets'] if v != 1] + [t['else']]
+            outs = [b for b in outs if b not in body and fn.blocks[b]['t']['t'] != 'unreachable']
+            if some_t and some_t[0] in body and len(set(outs)) == 1:
+                exhaust = (tb, outs[0])
+        loops.append(NLoop(fn, h, body, latches, coll, exhaust))
+    return loops
+
+
+def nested_forall_calls(E, fn, site_bbs):
+    """[(Call, (outermost collection, .., innermost collection))] for the calls inside loops nested at least two deep
+    that run for every element of every level on every path to all of site_bbs"""
+    from .lib.guards import edge_dominates
+    loops = [L for L in natural_loops(E, fn) if L.exhaust is not None and L.collection is not None]
+    out = []
+
+    def children(L):
+        for M in loops:
+            if M is L or M.header not in L.body or not (M.body < L.body):
+                continue
+            if any(K is not L and K is not M and K.body < L.body and M.body < K.body for K in loops):
+                continue
+            # M runs to exhaustion on every iteration of L
+            if any(l in M.body for l in L.latches):
+                continue
+            if all(fn.dominates(M.header, l) and edge_dominates(fn, M.exhaust[0], M.exhaust[1], l) for l in L.latches):
+                yield M
+
+    def descend(L, colls, depth):
+        for M in children(L):
+            cs = colls + (M.collection,)
+            for c in fn.calls:
+                if c.bb in M.body and c.bb != M.header and all(fn.dominates(c.bb, l) or c.bb == l for l in M.latches):
+                    out.append((c, cs))
+            if depth < 4:
+                descend(M, cs, depth + 1)
+
+    for L in loops:
+        if not all(fn.dominates(L.header, b) for b in site_bbs) or any(b in L.body for b in site_bbs):
+            continue
+        if not all(edge_dominates(fn, L.exhaust[0], L.exhaust[1], b) for b in site_bbs):
+            continue
+        descend(L, (L.collection,), 0)
+    return out
+
+
+def nested_must(E, fn, site_bbs, level=0):
+    """MUST effects (Eff, forall = innermost collection in the terms of the unrolled enclosing rows) of loop nests"""
+    from .lib import iters
+    sl = E.slicer
+    res = []
+    for c, colls in nested_forall_calls(E, fn, site_bbs):
+        def go(i, m):
+            coll = E.subst(colls[i], m)
+            al = iters.alts(sl, coll)
+            last = i == len(colls) - 1
+            if iters.trivial(al, coll):
+                rows = [(None, colls[i] if last else None)]
+            else:
+                rows = [(elem, fa) for elem, fa, filtered in al if not filtered]
+            for elem, fa in rows:
+                m2 = m
+                if elem is not None:
+                    m2 = dict(m)
+                    m2['__repl__'] = list(m.get('__repl__', ())) + [(iters.loop_key(colls[i]), elem), (iters.loop_key(coll), elem)]
+                if not last:
+                    go(i + 1, m2)
+                    continue
+                got = []
+                E._expand_call1(fn, c, fa, 'must', m2, (), (fn.path,), got)
+                rm = {'__repl__': m2.get('__repl__', [])}
+                for e in got:
+                    # closures expanded below this call drop the row bindings: re-apply them (idempotent)
+                    if rm['__repl__']:
+                        e.path = E.subst(e.path, rm) if e.path is not None else None
+                        e.args = tuple(E.subst(a, rm) for a in e.args) if e.args is not None else None
+                        e.forall = E.subst(e.forall, rm) if e.forall is not None else None
+                        e.implied = tuple(E.subst(x, rm) for x in e.implied)
+                    e.level, e.level_bb = level, c.bb
+                res.extend(got)
+        go(0, {})
+    return res
+
+
+def written_data(e, effs):
+    """the bytes written to the file effect e creates: the data argument of fs::write (or what lib/effects attached to
+    a File::create), else the buffer of the one write_all effect among effs whose receiver is that created file —
+    wherever the write_all sits (`File::create(p).and_then(|mut f| f.write_all(d))`).  (value | None, write_all Eff | None)"""
+    from .lib.value import canon
+    if e.args is not None and len(e.args) > 1:
+        return e.args[1], None
+    found = []
+    for d in effs:
+        if d.kind != 'WRITE_DATA' or d.path is None or d.args is None or len(d.args) < 2:
+            continue
+        r = strip(d.path)
+        if r[0] == 'call' and r[1] in CREATE and r[2] and e.path is not None and canon(r[2][0]) == canon(e.path) \
+                and (len(r) < 4 or r[3] is None or r[3] == (e.call.fn.path, e.call.bb)) \
+                and (d.forall is None) == (e.forall is None) and (d.forall is None or canon(d.forall) == canon(e.forall)):
+            found.append(d)
+    if len(found) == 1:
+        return found[0].args[1], found[0]
+    return None, None
+
+
+def same_elements(coll):
+    """the collection whose elements an iterated expression visits: `&xs`, `xs.iter()`, `xs.into_iter()` are xs"""
+    from .lib import iters
+    coll = strip(coll)
+    while coll[0] == 'call' and len(coll[2]) == 1 and iters._is_source(coll[1]) and coll[1].endswith(iters.SAME_ELEMS):
+        coll = strip(coll[2][0])
+    return coll
